@@ -17,6 +17,12 @@ pub struct LmCfg {
     pub gtol: Option<f64>,
     pub scale_diag: bool,
 }
+impl LmCfg {
+    /// nothing configured: the library's own `LevMarSolver::default()` is used
+    pub fn is_default(&self) -> bool {
+        self.patience == 100 && self.stepbound == 100.0 && self.ftol.is_none() && self.xtol.is_none() && self.gtol.is_none() && self.scale_diag
+    }
+}
 impl Default for LmCfg {
     fn default() -> Self {
         Self {
@@ -234,7 +240,11 @@ macro_rules! impl_prob {
                 Box::new((*self).into_sequential())
             }
             fn fit(self: Box<Self>, cfg: &LmCfg) -> FitOut<T> {
-                let solver = LevMarSolver::<M, $mrhs>::with_solver(cfg.solver::<T>());
+                let solver = if cfg.is_default() {
+                    LevMarSolver::<M, $mrhs>::default()
+                } else {
+                    LevMarSolver::<M, $mrhs>::with_solver(cfg.solver::<T>())
+                };
                 let (ok, fr) = match solver.fit(*self) {
                     Ok(fr) => (true, fr),
                     Err(fr) => (false, fr),
@@ -271,7 +281,11 @@ macro_rules! fit_stats_impl {
         None
     }};
     (false, $self:ident, $cfg:ident, $ps:ident, $bad:ident, $M:ident, $T:ident) => {{
-        let solver = LevMarSolver::<$M, false>::with_solver($cfg.solver::<$T>());
+        let solver = if $cfg.is_default() {
+            LevMarSolver::<$M, false>::default()
+        } else {
+            LevMarSolver::<$M, false>::with_solver($cfg.solver::<$T>())
+        };
         match solver.fit_with_statistics(*$self) {
             Ok((fr, st)) => {
                 let cov = st.covariance_matrix().clone();
